@@ -7,7 +7,7 @@ that are swallowed after effects, raw storage access.  Each is enumerated over t
 import re
 from facts import place as mkplace
 from base import CutPolicy, Cut, where, show, exact_origins, all_origins, flat_atoms
-from absint import tagvals, vfield, EMPTY, const_of
+from absint import tagvals, vfield, EMPTY, const_of, Val
 from rules.common import effects_signature, PredTrue, pred_test, opmap, exact_origins
 from rules.C15 import raw_storage_and_namespaces, CONTRACTS
 
@@ -39,6 +39,19 @@ SWALLOW_OK = [
 FLOORS = {"ERR-submsg-table": 2, "ERR-reply-unknown-id": 2, "ERR-swallow-site": 8, "WHO-reply-effects": 1}
 SWALLOWERS = {"ok", "unwrap_or", "unwrap_or_default", "unwrap_or_else", "is_ok", "is_err", "err", "is_ok_and",
               "is_err_and", "map_or", "map_or_else", "unwrap_or_else", "or", "or_else", "and", "iter", "into_iter"}
+
+
+def recipients(v, depth=0):
+    """origins of every `to_address` anywhere inside a message value"""
+    out = set()
+    if depth > 8:
+        return out
+    for k, f in v.fields.items():
+        if k == "to_address":
+            out |= all_origins(f)
+        elif not k.startswith("#"):
+            out |= recipients(f, depth + 1)
+    return out
 
 
 def run(W, chk):
@@ -81,6 +94,20 @@ def run(W, chk):
         else:
             chk.fail("ERR-submsg-table", inst, "sub-message with reply mode %s is not in the table "
                      "(reply_always / reply_on_error would let a failure commit partial state)" % mode, where(e))
+    from rules.common import sends_to
+    for vp in (("ManageFarm", ".action", "Close"), ("ManageFarm", ".action", "Create")):
+        A = W.run("farm_manager", "execute", vp)
+        refunds = sends_to(A, {"Store(FARMS).owner"})
+        errs = [e for e in A.calls(r"cosmwasm_std::SubMsg::<") if e.extra.get("submsg_mode") == "Error"]
+        el = vfield(vfield(A.ret if A.ret is not None else EMPTY, "messages"), "[*]")
+        plain = Val(el.atoms, {k: f for k, f in el.fields.items() if k != "msg"})
+        wrapped = vfield(el, "msg")
+        ro = {o for o in all_origins(vfield(el, "reply_on")) if o != "Const(Response)"}
+        chk.expect(len(refunds) >= 1 and len(errs) == len(refunds) and "Store(FARMS).owner" in recipients(wrapped)
+                   and "Store(FARMS).owner" not in recipients(plain) and ro == {"Const(Error)"}, "ERR-refund-tolerated", "/".join(vp),
+                   "every close refund is sent as reply_on_error (a failing refund cannot block the close or the new farm)",
+                   "close refunds %d, reply_on_error wrappers %d; refund among the plain messages of the response: %s; reply modes in the response %s" % (
+                       len(refunds), len(errs), "Store(FARMS).owner" in recipients(plain), sorted(ro)), A.entry)
     modes = {(c, m) for (c, w, vp, m, e, A) in seen}
     chk.expect(("pool_manager", "Success") in modes and ("farm_manager", "Error") in modes, "ERR-submsg-anchors",
                "anchors", "both documented sub-messages found", "documented sub-message constructors not found: %s" % sorted(modes))
